@@ -310,7 +310,7 @@ struct IoFault : Profile {
         using namespace simfs;
         switch (evkind) {
             case EV_READ:
-                return {F_EIO, F_SHORT};
+                return {F_EIO, F_SHORT, F_STICKY}; // sticky: this read and every later call on the stream fails
             case EV_WRITE:
                 return buffered ? std::vector<int>{F_EIO} : std::vector<int>{F_EIO, F_SHORT, F_ENOSPC, F_STICKY};
             case EV_WRITEOUT:
